@@ -413,8 +413,15 @@ def _workload(tier, rng, shard, nshards):
         while i + 1 < len(pts):
             ents.append((pts[i] / rate, pts[i + 1] / rate, "e%d" % len(ents)))
             i += rng.choice((1, 2))
-        tg.addTier(make_tier("I", "words", ents, 0.0, dur), reportingMode="silence")
-        tg.addTier(make_tier("P", "marks", [(p / rate, rng.choice(["m", "m", "n"]) if k % 2 else "m%d" % j) for j, p in enumerate(sorted(rng.sample(range(0, n + 1), rng.randrange(0, 6))))], 0.0, dur), reportingMode="silence")
+        if k % 4 == 3 and ents and ents[-1][1] < dur:
+            # the textgrid covers the recording, every tier ends with its last entry (tiers built from their entries only)
+            tg = Textgrid(0.0, dur)
+            tg.addTier(make_tier("I", "words", ents, 0.0, ents[-1][1]), reportingMode="silence")
+            REC.cls("C18:textgrid-longer-than-its-tiers")
+        else:
+            tg.addTier(make_tier("I", "words", ents, 0.0, dur), reportingMode="silence")
+        marks = [(p / rate, rng.choice(["m", "m", "n"]) if k % 2 else "m%d" % j) for j, p in enumerate(sorted(rng.sample(range(0, n + 1), rng.randrange(0, 6))))]
+        tg.addTier(make_tier("P", "marks", marks, 0.0, dur if not (k % 4 == 3 and marks and tg.getTier("words").maxTimestamp < dur) else max(marks[-1][0], tg.getTier("words").maxTimestamp)), reportingMode="silence")
         guarded(praatio_scripts.tgBoundariesToZeroCrossings, tg.new(), wav, rng.random() < 0.8, rng.random() < 0.8)
         seg, _, _, _ = mk_wav(rng, rng.choice(("sine", "random", "sparse-zero")), n=rng.randrange(8, 60), width=wav.sampleWidth, rate=rate)
         start = rng.choice([0.0, dur, rng.randrange(0, n + 1) / rate, rng.choice(pts) / rate])
